@@ -360,6 +360,22 @@ def check(pid, tier):
                 cases_ok += len(s["descs"]) - len(idx)
                 for i in idx:
                     mism.append({"shard": name, "index": i, "case": s["descs"][i]})
+        # a shard whose coqc died without a Coq error message (killed under memory pressure, timed out on a loaded
+        # machine) says nothing about the property: evaluate it again, alone; if it still gives no answer this is a
+        # tool error (exit 2), not a verdict
+        retry = [e for e in shard_errs if "Error" not in e["error"]]
+        for e in retry:
+            name, idx, out, dt = run_shard((workdir, e["shard"]))
+            if idx is None and "Error" not in out:
+                tool_error("coqc gave no answer for %s of %s twice (resource limits?)" % (e["shard"], pid), out)
+            shard_errs.remove(e)
+            s = next(x for x in shards if x["file"] == name)
+            if idx is None:
+                shard_errs.append({"shard": name, "error": out[-800:]})
+                continue
+            cases_ok += len(s["descs"]) - len(idx)
+            for i in idx:
+                mism.append({"shard": name, "index": i, "case": s["descs"][i]})
 
     # advisory cases (harness: r.Advisory) and extension proof files (cfg: extra_files): what they state is NOT
     # part of the property; a failure is a note in the evidence, never a violation
